@@ -426,7 +426,11 @@ def run_driver(scns, work, tag):
     scn_path = os.path.join(work, tag + "_scn.ndjson")
     tr_path = os.path.join(work, tag + "_trace.ndjson")
     with open(scn_path, "w") as f:
-        for s in scns:
+        for i, s in enumerate(scns):
+            # every second scenario goes through poll_read_vectored / poll_write_vectored (one slice): same semantics,
+            # other code path of the adapter
+            if "vectored" not in s and i % 2 == 1:
+                s = dict(s, vectored=1)
             f.write(json.dumps(s) + "\n")
     p = check.sh([DRV, scn_path, tr_path], timeout=1800, check=False)
     if p.returncode != 0:
